@@ -73,6 +73,16 @@ func (b *RecBackend) maybeClose(cb string) {
 	}
 }
 
+// maybeCloseWire: CloseAt key "w<code>" - Server.Close is called (and waited for) while the n-th reply with
+// that code is being written, i.e. between a command's reply and whatever the handler does next (seed C08M:
+// Close during the 354).
+func (b *RecBackend) maybeCloseWire(p []byte) {
+	if b.CloseAt == nil || len(p) < 4 {
+		return
+	}
+	b.maybeClose("w" + string(p[:3]))
+}
+
 // waitClose holds the caller until a Close started by a Reset callback has returned.
 func (b *RecBackend) waitClose() {
 	b.mu.Lock()
@@ -160,6 +170,10 @@ func genC08ServerClose(rng *rand.Rand, thorough bool, emit func(*Sx)) {
 		{"reset-rset", map[string]int{"reset": 1}, func(f *fconv) { f.hello(); f.cmd("MAIL FROM:<s@ok>"); f.cmd("RSET") }},
 		{"reset-ehlo", map[string]int{"reset": 1}, func(f *fconv) { mailRcpt(f); f.hello() }},
 		{"authnext", map[string]int{"authnext": 1}, func(f *fconv) { f.hello(); f.cmd("AUTH PLAIN AGEAYg==") }},
+		// while a reply is being written: the 354 (the message is buffered behind), the reply to MAIL, to RCPT
+		{"w354", map[string]int{"w354": 1}, func(f *fconv) { mailRcpt(f); f.cmd("DATA"); f.raw("hello\r\n.\r\n") }},
+		{"w250-mail", map[string]int{"w250": 2}, func(f *fconv) { f.hello(); f.cmd("MAIL FROM:<s@ok>") }},
+		{"w250-rcpt", map[string]int{"w250": 3}, mailRcpt},
 	}
 	suffixes := []string{
 		"",
